@@ -37,7 +37,7 @@ func (h *heldSinceEv) Instr(st uint8, ins ssa.Instruction) uint8 {
 	return st
 }
 func (h *heldSinceEv) Edge(st uint8, _ *ssa.BasicBlock, _ int) uint8 { return st }
-func (h *heldSinceEv) Holds(st uint8) bool                          { return st == 3 }
+func (h *heldSinceEv) Holds(st uint8) bool                           { return st == 3 }
 
 // mutexFieldsLockedIn: mutex fields with a Lock() call in fn.
 func mutexFieldsLockedIn(fn *ssa.Function) []*types.Var {
